@@ -128,5 +128,9 @@ func init() {
 		fr.i.path.env.recycleKeys = true
 		return nil
 	})
+	H("FailWrites", func(fr *frame, args []value) value {
+		fr.i.path.env.failWriteSuffix = concStr(args[1], "FailWrites")
+		return nil
+	})
 	H("Acked", func(fr *frame, args []value) value { return fr.i.path.env.acked })
 }
